@@ -31,6 +31,13 @@ def gen_ir(r):
             falsy = {"int": 0, "float": 0.0, "bool": False, "str": ""}.get(base)
             if falsy is not None and falsy != "":
                 p["default"] = falsy
+    # negative numbers (a UnaryOp node in a signature) under scalar and Optional types; True/False under Optional[bool]
+    for n, p in ir["params"].items():
+        k = r.random()
+        if k < 0.08:
+            p["typ"], p["default"] = r.choice([("Optional[int]", -1), ("Optional[float]", -0.5), ("int", -7), ("float", -2.5), ("Optional[int]", -12)])
+        elif k < 0.13:
+            p["typ"], p["default"] = "Optional[bool]", r.choice([True, False])
     # long string defaults (they wrap inside the docstring prose) and complex numbers are scalars of the domain too
     for n, p in ir["params"].items():
         k = r.random()
@@ -166,7 +173,7 @@ def run(chk: core.Check) -> int:
         "the C02 model (lean/CddVerif/Model/Iface*.lean) is tied to the code by the C02 check's stage-wise correspondence, not by this check",
     ]
     rng = chk.rng
-    n = 30 if chk.quick else 250
+    n = 110 if chk.quick else 700
     cases = []
     for _ in range(n):
         extra = [[rng.choice(FMTS) for _ in range(rng.choice([4, 5]))] for _ in range(4 if chk.quick else 12)]
